@@ -90,6 +90,10 @@ type scen struct {
 	// the failed send, calls that then report success must still mean what the property says.
 	FailSide side
 	FailNth  int
+	// CancelFirst >= 0: the context given to the FIRST operation (an UpdateKeys) is cancelled after that many
+	// network transitions — the application gives up waiting while the KeyUpdate is out and its acknowledgement
+	// is late or lost. The call then reports the cancellation; what the LATER calls report is judged as always.
+	CancelFirst int
 }
 
 func (s scen) id() string {
@@ -112,6 +116,9 @@ func (s scen) id() string {
 	if s.FailNth > 0 {
 		id += fmt.Sprintf("/send%d-of-%s-refused", s.FailNth, s.FailSide)
 	}
+	if s.CancelFirst > 0 {
+		id += fmt.Sprintf("/first-call-cancelled-after-%d", s.CancelFirst-1)
+	}
 	return id
 }
 
@@ -125,6 +132,8 @@ type opRec struct {
 	payload   []byte
 	startStep int
 	doneStep  int // first harness step after which the call was observed to have returned; -1 = never
+	cancel    context.CancelFunc
+	cancelled bool
 }
 
 type readItem struct {
@@ -303,8 +312,12 @@ func (x *exec) startOp(i int, k opKind) {
 	o := &opRec{idx: i, kind: k, startStep: x.curStep(), doneStep: -1}
 	if k.isU() {
 		req := k.req()
+		ctx := context.Background()
+		if i == 0 && x.sc.CancelFirst > 0 {
+			ctx, o.cancel = context.WithCancel(ctx)
+		}
 		o.op = x.w.Go(fmt.Sprintf("%s.UpdateKeys#%d", e.Name, i), func(*world.Op) error {
-			return e.Conn.UpdateKeys(context.Background(), dtls.KeyUpdateOptions{RequestPeerUpdate: req})
+			return e.Conn.UpdateKeys(ctx, dtls.KeyUpdateOptions{RequestPeerUpdate: req})
 		})
 	} else {
 		o.payload = []byte(fmt.Sprintf("payload-%d-from-%s-%s", i, k.side(), strings.Repeat("x", 3+i)))
@@ -644,6 +657,18 @@ func (x *exec) run() {
 			x.doInject(*sc.Inj, mg)
 		}
 		x.startOp(i, k)
+		if i == 0 && sc.CancelFirst > 0 && len(x.ops) > 0 && x.ops[0].cancel != nil {
+			for g := 0; g < sc.CancelFirst-1; g++ {
+				if !x.n.Step() {
+					break
+				}
+			}
+			x.w.Settle()
+			x.ops[0].cancel()
+			x.ops[0].cancelled = true
+			x.w.Settle()
+			x.w.Logf("context of op 0 cancelled")
+		}
 		switch {
 		case sc.Gap < 0:
 			x.quiesce()
